@@ -927,7 +927,7 @@ func main() {
 		{"pwr/bowl/bowl_pool.go", "poolBowl.Transpose"}, {"pwr/bowl/bowl_pool.go", "poolBowl.GetWriter"}, {"pwr/bowl/bowl_pool.go", "poolEntryWriter.Close"},
 		{"bsdiff/patch.go", "PatchContext.NewIndividualPatchContext"}, {"compressors/gzip/gzip.go", "gzipCompressor.Apply"}, {"decompressors/gzip/gzip.go", "gzipDecompressor.Apply"},
 		{"compressors/cbrotli/cbrotli.go", "brotliCompressor.Apply"}, {"wire/write_context.go", "WriteContext.Close"}, {"wire/write_context.go", "WriteContext.WriteMagic"},
-		{"pwr/validator.go", "IsNotExist"}, {"pwr/bowl/bowl_overlay.go", "isBelowAny"}, {"pwr/bowl/bowl_fresh.go", "freshEntryWriter.Save"}, {"pwr/bowl/bowl_fresh.go", "freshEntryWriter.Write"},
+		{"pwr/validator.go", "IsNotExist"}, {"pwr/bowl/bowl_overlay.go", "isBelowAny"}, {"pwr/bowl/bowl_overlay.go", "overlayBowl.moveSourcesAside"}, {"pwr/bowl/bowl_overlay.go", "overlayBowl.pathsInUse"}, {"pwr/bowl/bowl_fresh.go", "freshEntryWriter.Save"}, {"pwr/bowl/bowl_fresh.go", "freshEntryWriter.Write"},
 		{"pwr/safekeeper.go", "safeKeeper.Close"}, {"pwr/safekeeper.go", "NewSafeKeeper"}, {"wsync/algo.go", "NewContext"},
 	}
 	facts := map[string]interface{}{}
